@@ -62,7 +62,7 @@ fn ekind(max_many: u16, many_w: u32, big: u32) -> impl Strategy<Value = EKind> {
         5 => data_copy(big).prop_map(EKind::File),
         3 => (any::<u16>(), any::<bool>()).prop_map(|(target, rel)| EKind::Link { target, rel }),
         1 => Just(EKind::Fifo),
-        many_w => (prop_oneof![6 => 0u16..=30, 2 => 15u16..=60, 1 => 0u16..=max_many], any::<u8>(), prop_oneof![Just(0u8), Just(1u8), any::<u8>()], any::<bool>()).prop_map(|(count, len_a, len_step, mixed)| EKind::Many { count, len_a, len_step, mixed }),
+        many_w => (prop_oneof![12 => 0u16..=30, 4 => 15u16..=60, 2 => 0u16..=max_many.min(300), 1 => max_many.min(300)..=max_many], any::<u8>(), prop_oneof![Just(0u8), Just(1u8), any::<u8>()], any::<bool>()).prop_map(|(count, len_a, len_step, mixed)| EKind::Many { count, len_a, len_step, mixed }),
     ]
 }
 
@@ -439,19 +439,19 @@ pub fn run(ctx: &Ctx) {
     lap("readdir-shapes");
 
     // random, one family per sub-check
-    ctx.run_prop("create_dir_all", ctx.cases(250, 12_000), case_of(tree(6, 0, 0, 5000), op_cda(), 4), f);
+    ctx.run_prop("create_dir_all", ctx.cases(250, 2_500), case_of(tree(6, 0, 0, 5000), op_cda(), 4), f);
     lap("create_dir_all");
-    ctx.run_prop("copy", ctx.cases(200, 8_000), case_of(tree_with_files(5, big), op_copy(), 4), f);
+    ctx.run_prop("copy", ctx.cases(200, 1_600), case_of(tree_with_files(5, big), op_copy(), 4), f);
     lap("copy");
-    ctx.run_prop("write-read", ctx.cases(200, 8_000), case_of(tree_with_files(5, big), prop_oneof![op_write(big), op_read()], 6), f);
+    ctx.run_prop("write-read", ctx.cases(200, 1_600), case_of(tree_with_files(5, big), prop_oneof![op_write(big), op_read()], 6), f);
     lap("write-read");
-    ctx.run_prop("remove_dir_all", ctx.cases(100, 6_000), case_of(tree(12, max_many, 1, 5000), op_rda(), 3), f);
+    ctx.run_prop("remove_dir_all", ctx.cases(100, 700), case_of(tree(12, max_many, 1, 5000), op_rda(), 3), f);
     lap("remove_dir_all");
-    ctx.run_prop("readdir", ctx.cases(80, 5_000), case_of(tree(8, max_many, 2, 5000), op_readdir(), 3), f);
+    ctx.run_prop("readdir", ctx.cases(80, 500), case_of(tree(8, max_many, 2, 5000), op_readdir(), 3), f);
     lap("readdir");
-    ctx.run_prop("rename-misc", ctx.cases(250, 12_000), case_of(tree(10, 40, 1, 5000), op_misc(), 8), f);
+    ctx.run_prop("rename-misc", ctx.cases(250, 2_000), case_of(tree(10, 40, 1, 5000), op_misc(), 8), f);
     lap("rename-misc");
     // mixed histories
-    ctx.run_prop("history", ctx.cases(200, 15_000), case_of(tree(12, max_many, 1, big), op_any(big), 30), f);
+    ctx.run_prop("history", ctx.cases(200, 1_600), case_of(tree(12, max_many, 1, big), op_any(big), 30), f);
     lap("history");
 }
